@@ -3067,3 +3067,173 @@ pub proof fn lemma_desc_step<T>(s: Seq<Node<T>>, w: Ranks, root: NodeId, e: Node
     assert(ranked_at(s, w, edge_node(e).idx()));
 }
 
+// ---- remove_subtree deletes exactly the subtree (C04) -------------------------------------------
+pub open spec fn same_links<T>(a: Node<T>, b: Node<T>) -> bool {
+    a.parent == b.parent && a.previous_sibling == b.previous_sibling && a.next_sibling == b.next_sibling && a.first_child
+        == b.first_child && a.last_child == b.last_child
+}
+
+/// loop invariant of `remove_subtree(x)`: s1 is the state right after `x.detach()`, `now` the
+/// current state, the cursor walks the not yet removed part of x's subtree
+pub open spec fn rs_inv<T>(s1: Seq<Node<T>>, now: Seq<Node<T>>, w: Ranks, x: int, cursor: Option<NodeId>) -> bool {
+    &&& now.len() == s1.len() && 0 <= x < s1.len()
+    // live nodes keep their parent link and their generation
+    &&& forall|i: int| 0 <= i < s1.len() && !(#[trigger] now[i]).stamp.removed() ==> now[i].parent == s1[i].parent && now[i].stamp == s1[i].stamp
+    // nothing outside the subtree is touched
+    &&& forall|i: int|
+        0 <= i < s1.len() && !in_sub(s1, w, x, i) ==> same_links(#[trigger] now[i], s1[i]) && now[i].stamp == s1[i].stamp && (!s1[i].stamp.removed()
+            ==> now[i].data == s1[i].data)
+    // only nodes of the subtree are removed, each exactly once
+    &&& forall|i: int|
+        0 <= i < s1.len() && (#[trigger] now[i]).stamp.removed() && !s1[i].stamp.removed() ==> in_sub(s1, w, x, i) && now[i].stamp.0 == -s1[i].stamp.0
+            - 1
+    &&& cursor is Some ==> {
+        &&& tgt_ok(now, cursor) && in_sub(s1, w, x, cursor->0.idx()) && in_sub(now, w, x, cursor->0.idx())
+        &&& !now[x].stamp.removed() && is_root(now, x)
+    }
+    // when the walk is over the whole subtree is gone
+    &&& cursor is None ==> forall|i: int| 0 <= i < s1.len() && in_sub(s1, w, x, i) ==> (#[trigger] now[i]).stamp.removed()
+}
+
+pub proof fn lemma_in_sub_same<T>(s1: Seq<Node<T>>, now: Seq<Node<T>>, w: Ranks, r: int, y: int)
+    // @props C04
+    requires
+        now.len() == s1.len(),
+        links_ok(now),
+        forall|i: int| 0 <= i < s1.len() && !(#[trigger] now[i]).stamp.removed() ==> now[i].parent == s1[i].parent,
+        0 <= y < s1.len(),
+        !now[y].stamp.removed(),
+    ensures
+        in_sub(now, w, r, y) == in_sub(s1, w, r, y),
+    decreases (w.depth)(y),
+{
+    if y != r && now[y].parent is Some && (w.depth)(now[y].parent->0.idx()) < (w.depth)(y) {
+        lemma_links_live(now, y);
+        lemma_in_sub_same(s1, now, w, r, now[y].parent->0.idx());
+    }
+}
+
+pub proof fn lemma_rs_descend<T>(s1: Seq<Node<T>>, now: Seq<Node<T>>, w: Ranks, x: int, id: NodeId)
+    // @props C04
+    requires
+        links_ok(now),
+        ranked(now, w),
+        ranked(s1, w),
+        rs_inv(s1, now, w, x, Some(id)),
+        now[id.idx()].first_child is Some,
+    ensures
+        rs_inv(s1, now, w, x, now[id.idx()].first_child),
+{
+    reveal(node_ok);
+    lemma_first_child_in_sub(now, w, x, id);
+    let c = now[id.idx()].first_child->0.idx();
+    assert(node_ok(now, id.idx()));
+    assert(node_ok(now, c));
+    assert(now[c].parent == s1[c].parent);
+    assert(ranked_at(s1, w, c));
+}
+
+#[verifier::spinoff_prover]
+#[verifier::rlimit(100)]
+pub proof fn lemma_rs_leaf<T>(s1: Seq<Node<T>>, s_in: Seq<Node<T>>, s_mid: Seq<Node<T>>, s_out: Seq<Node<T>>, w: Ranks, x: int, id: NodeId)
+    // @props C04
+    requires
+        links_ok(s_in),
+        ranked(s_in, w),
+        ranked(s1, w),
+        links_ok(s_out),
+        ranked(s_out, w),
+        rs_inv(s1, s_in, w, x, Some(id)),
+        s_in[id.idx()].first_child is None,
+        detach_post(s_in, s_mid, id.idx()),
+        s_out.len() == s_mid.len(),
+        // what free_node(id) promises
+        s_out[id.idx()].stamp.0 == -s_mid[id.idx()].stamp.0 - 1,
+        forall|i: int|
+            0 <= i < s_mid.len() ==> same_links(#[trigger] s_out[i], s_mid[i]) && (i != id.idx() ==> s_out[i].stamp == s_mid[i].stamp) && ((i
+                != id.idx() && !s_mid[i].stamp.removed()) ==> s_out[i].data == s_mid[i].data),
+    ensures
+        rs_inv(s1, s_out, w, x, s_in[id.idx()].parent),
+{
+    reveal(node_ok);
+    let k = id.idx();
+    let p = s_in[k].parent;
+    assert(node_ok(s_in, k));
+    assert(ranked_at(s_in, w, k));
+    assert(ranked_at(s1, w, k));
+    lemma_leaf_removed_frame(s_in, s_mid, s_out, w, x, id);
+    // the neighbours touched by the detach are inside the subtree
+    if s_in[k].previous_sibling is Some {
+        let a = s_in[k].previous_sibling->0.idx();
+        assert(node_ok(s_in, a));
+        assert(ranked_at(s1, w, a));
+        assert(in_sub(s1, w, x, a));
+    }
+    if s_in[k].next_sibling is Some {
+        let b = s_in[k].next_sibling->0.idx();
+        assert(node_ok(s_in, b));
+        assert(ranked_at(s1, w, b));
+        assert(in_sub(s1, w, x, b));
+    }
+    if p is Some {
+        let pi = p->0.idx();
+        assert(node_ok(s_in, pi));
+        assert(in_sub(s1, w, x, k) == (k == x || in_sub(s1, w, x, pi)));
+        assert(in_sub(s1, w, x, pi));
+    } else {
+        assert(k == x);
+        // x was the last live node of its subtree
+        assert forall|i: int| 0 <= i < s1.len() && in_sub(s1, w, x, i) implies (#[trigger] s_out[i]).stamp.removed() by {
+            if i != x && !s_out[i].stamp.removed() {
+                assert(!s_in[i].stamp.removed());
+                lemma_in_sub_same(s1, s_in, w, x, i);
+                lemma_childless_not_anc(s_in, w, x, i);
+            }
+        }
+    }
+    assert forall|i: int| 0 <= i < s1.len() && !in_sub(s1, w, x, i) implies same_links(#[trigger] s_out[i], s1[i]) && s_out[i].stamp == s1[i].stamp
+        && (!s1[i].stamp.removed() ==> s_out[i].data == s1[i].data) by {
+        assert(same_links(s_in[i], s1[i]));
+        assert(same_links(s_out[i], s_mid[i]));
+        assert(i != k);
+    }
+}
+
+/// C04: `remove_subtree(x)` relative to the state m right after `x.detach()`: exactly x and its
+/// descendants are removed (each marked removed once), every other slot keeps all its links, its
+/// generation and its payload
+pub open spec fn subtree_removed_post<T>(m: Seq<Node<T>>, n: Seq<Node<T>>, x: int) -> bool {
+    &&& n.len() == m.len()
+    &&& forall|i: int| 0 <= i < m.len() ==> ((#[trigger] n[i]).stamp.removed() <==> (m[i].stamp.removed() || anc(m, x, i)))
+    &&& forall|i: int|
+        0 <= i < m.len() && !anc(m, x, i) ==> same_links(#[trigger] n[i], m[i]) && n[i].stamp == m[i].stamp && (!m[i].stamp.removed()
+            ==> n[i].data == m[i].data)
+    &&& forall|i: int| 0 <= i < m.len() && anc(m, x, i) ==> (#[trigger] n[i]).stamp.0 == -m[i].stamp.0 - 1
+}
+
+pub proof fn lemma_rs_done<T>(s1: Seq<Node<T>>, now: Seq<Node<T>>, w: Ranks, x: int)
+    // @props C04
+    requires
+        links_ok(s1),
+        ranked(s1, w),
+        !s1[x].stamp.removed(),
+        rs_inv(s1, now, w, x, None),
+    ensures
+        subtree_removed_post(s1, now, x),
+{
+    assert forall|i: int| 0 <= i < s1.len() implies (anc(s1, x, i) == in_sub(s1, w, x, i)) && (in_sub(s1, w, x, i) ==> !s1[i].stamp.removed()) by {
+        lemma_anc_iff(s1, w, x, i);
+        if in_sub(s1, w, x, i) && i != x {
+            lemma_links_live(s1, i);
+        }
+    }
+    assert forall|i: int| 0 <= i < s1.len() implies ((#[trigger] now[i]).stamp.removed() <==> (s1[i].stamp.removed() || anc(s1, x, i))) by {
+        if !in_sub(s1, w, x, i) {
+            assert(same_links(now[i], s1[i]));
+        }
+    }
+    assert forall|i: int| 0 <= i < s1.len() && !anc(s1, x, i) implies same_links(#[trigger] now[i], s1[i]) && now[i].stamp == s1[i].stamp && (
+    !s1[i].stamp.removed() ==> now[i].data == s1[i].data) by {}
+    assert forall|i: int| 0 <= i < s1.len() && anc(s1, x, i) implies (#[trigger] now[i]).stamp.0 == -s1[i].stamp.0 - 1 by {}
+}
+
